@@ -175,9 +175,11 @@ theorem blockOK_init (c : Codec) {sym : Nat → Bytes} {k sbn : Nat} {D : Bytes}
     · simp at h
     · rename_i hs
       split at h
-      · simp at h; rw [← h]
-        intro d hd; simp at hd; rw [← hd]
-        exact ⟨hs, rfl, rfl, rfl, by simp, by simp⟩
+      · split at h
+        · simp at h
+        · simp at h; rw [← h]
+          intro d hd; simp at hd; rw [← hd]
+          exact ⟨hs, rfl, rfl, rfl, by simp, by simp⟩
       · simp at h
     · rename_i hs
       split at h
